@@ -59,10 +59,11 @@ var providedKinds = []string{"so:lib%d.so.1", "cmd:tool%d", "pc:z%d", "virt%d", 
 // depends on the provided name (versioned in ~35%, and on the previous group's provided name in ~25%: chains).
 func genProvided(r *Rng, tier string) *pConc {
 	n := r.Range(10, 28)
+	c := &pConc{G: r.Range(4, 8), Rounds: r.Range(3, 5), Seed: r.Next()}
 	if tier == "thorough" {
-		n = r.Range(30, 90)
+		n = r.Range(16, 48)
+		c.G, c.Rounds = r.Range(6, 12), r.Range(4, 8)
 	}
-	c := &pConc{G: r.Range(4, 8), Rounds: r.Range(2, 3), Seed: r.Next()}
 	ix := rIndex{URI: "https://conc.test/main/x86_64"}
 	var second *rIndex
 	if r.Chance(35) {
